@@ -1,21 +1,30 @@
 #!/bin/bash
 # False-alarm self-test: every kept behaviour-preserving refactor (benign/<id>/patch.diff) is applied to a scratch
 # copy of /repo and ALL six quick checks are run against it; every one must stay silent. Writes benign/MATRIX.md.
-cd /verif
-out=benign/MATRIX.md
-{
-echo "| benign change | C01 | C04 | C09 | C12 | C18 | C19 |"
-echo "|---|---|---|---|---|---|---|"
-} > $out.tmp
-bad=0
-for d in benign/*/; do
-  id=$(basename $d)
-  res=$(tools/try_benign.sh $d/patch.diff)
+# Built from a snapshot of /verif taken at start; JOBS changes in parallel.
+JOBS=${JOBS:-2}
+SNAP=$(mktemp -d /var/tmp/verifsnap.XXXXXX)
+trap 'rm -rf "$SNAP"' EXIT
+rsync -a --exclude .git --exclude .build --exclude replays --exclude evidence /verif/ "$SNAP/verif/"
+cd "$SNAP/verif" || exit 2
+one() {
+  d=$1; id=$(basename $d)
+  W=$(mktemp -d /var/tmp/verifbenign.XXXXXX)
+  rsync -a --exclude .git /repo/ "$W/"
+  if ! (cd "$W" && patch -p1 -s --no-backup-if-mismatch < "$SNAP/verif/$d/patch.diff"); then echo "| $id | PATCH DOES NOT APPLY |"; rm -rf "$W"; return; fi
   row="| $id |"
   for p in C01 C04 C09 C12 C18 C19; do
-    if echo "$res" | grep -q "silent $p"; then row="$row silent |"; else row="$row **ALARM** |"; bad=$((bad+1)); fi
+    VERIF_REPO="$W" VERIF_NO_EVIDENCE=1 VERIF_REPLAY_DIR="$W.replays" VERIF_WORKERS=8 "$SNAP/verif/bin/check" $p quick >/dev/null 2>&1
+    if [ $? -eq 0 ]; then row="$row silent |"; else row="$row **ALARM** |"; fi
   done
-  echo "$row" >> $out.tmp
-done
-mv $out.tmp $out
-echo "benign matrix done: alarms=$bad"
+  rm -rf "$W" "$W.replays"
+  echo "$row"
+}
+export -f one; export SNAP
+ls -d benign/*/ | xargs -P "$JOBS" -I{} bash -c 'one {}' | sort > "$SNAP/rows"
+{
+  echo "| benign change | C01 | C04 | C09 | C12 | C18 | C19 |"
+  echo "|---|---|---|---|---|---|---|"
+  cat "$SNAP/rows"
+} > /verif/benign/MATRIX.md
+echo "benign matrix done: $(wc -l < "$SNAP/rows") changes, alarms: $(grep -c ALARM /verif/benign/MATRIX.md)"
